@@ -1043,6 +1043,7 @@ func (a *Act) lookupLocalVar(e *specEnv, name string) (specVal, bool) {
 	// dominates the point of interest
 	var best ssa.Value
 	var bestBlock *ssa.BasicBlock
+	var bestObj types.Object
 	bestIdx := 0
 	for _, b := range fn.Blocks {
 		for _, in := range b.Instrs {
@@ -1086,6 +1087,7 @@ func (a *Act) lookupLocalVar(e *specEnv, name string) (specVal, bool) {
 			}
 			if best == nil || laterPoint(b, instrIndex(dr), bestBlock, bestIdx) {
 				best, bestBlock, bestIdx = dr.X, b, instrIndex(dr)
+				bestObj = dr.Object()
 			}
 		}
 	}
@@ -1114,13 +1116,40 @@ func (a *Act) lookupLocalVar(e *specEnv, name string) (specVal, bool) {
 			}
 			if best == nil || laterPoint(b, -1, bestBlock, bestIdx) {
 				best, bestBlock, bestIdx = phi, b, -1
+				// (a phi carries the name only; it is taken for the same variable as the latest
+				// plain reference seen so far)
 			}
 		}
 	}
 	if bestAl != nil {
 		// the alloc is the variable unless a plain (SSA-register) variable of the same name is
 		// declared or assigned later on the way here
-		if best == nil || !laterPoint(bestBlock, bestIdx, bestAl.Block(), instrIndex(bestAl)) {
+		// which source variable is the alloc?
+		var allocObj types.Object
+		for _, b := range fn.Blocks {
+			for _, in := range b.Instrs {
+				if dr, ok := in.(*ssa.DebugRef); ok && dr.IsAddr && dr.X == ssa.Value(bestAl) {
+					allocObj = dr.Object()
+				}
+			}
+		}
+		if allocObj == nil {
+			// named results and parameters that are only captured by closures have no address
+			// reference in this function: take the signature's variable of that name
+			sig := fn.Signature
+			for i := 0; i < sig.Results().Len(); i++ {
+				if sig.Results().At(i).Name() == name {
+					allocObj = sig.Results().At(i)
+				}
+			}
+			for i := 0; i < sig.Params().Len(); i++ {
+				if sig.Params().At(i).Name() == name {
+					allocObj = sig.Params().At(i)
+				}
+			}
+		}
+		shadowed := best != nil && bestObj != nil && allocObj != nil && bestObj != allocObj && laterPoint(bestBlock, bestIdx, bestAl.Block(), instrIndex(bestAl))
+		if !shadowed {
 			lv := a.lvs[bestAl]
 			return specVal{a.load(e.st, lv), lv.typ}, true
 		}
